@@ -29,6 +29,7 @@
 //!   threads    a concurrent render differs from the single threaded fresh-environment result
 //!
 //! usage: c15 gen <quick|thorough> [count] | c15 one <case tokens…> [--once] | c15 file <corpus file>
+//!        c15 foreign <rounds> | c15 fone fx:<x>:<site>:<consumer>:<via>   (foreign-value stream, see below)
 use minijinja::value::Value;
 use minijinja::{context, Environment, Error, ErrorKind};
 use mjh::*;
@@ -837,6 +838,216 @@ fn run_history(ops: &[Op], hseed: u64) -> (String, String, String, String) {
     (case_toks.join(" "), impl_steps.join(" / "), oracle_steps.join(" / "), notes.join(" "))
 }
 
+// ======================================================================================
+// "foreign value" stream: values that are bound to one render (macros, module objects,
+// namespaces holding macros, `caller`, `loop`) are exported from a finished render and handed to
+// OTHER renders as context variable or global.  What such a render does must not depend on the
+// thread it runs on nor on what that thread rendered before: every variant of a case must give
+// the identical result (Ok output, or the same error kind + detail).
+//
+//   case  fx:<x>:<site>:<consumer>:<via>
+//     x        exporter template index (what is exported and how it is used)
+//     site     where the exporting render ran: M = main thread, 0..3 = a new thread after that
+//              many other renders
+//     consumer same  = the exporter template itself (it declares the same macro before the use)
+//              other = another template with a macro of its own
+//              str   = the exporter's source compiled again with render_str
+//              info  = a template that only inspects the value (never calls it)
+//     via      ctx | glob  (context variable / Environment::add_global on a clone)
+//   variants (in this order): main thread; new threads after k = 0,1,2,3 other renders (ok and
+//   failing ones); the exporting thread itself (one more render after the export, `-` for site
+//   M); 4 concurrent brand-new threads; 4 concurrent threads after k = site renders.
+// ======================================================================================
+
+struct Exporter {
+    src: &'static str,
+    export: &'static str,
+    use_expr: &'static str,
+}
+
+const LIB_SRC: &str = "{% macro m(x) %}L{{ x }}{% endmacro %}";
+
+const EXPORTERS: [Exporter; 9] = [
+    Exporter { src: "{% macro m(x) %}[{{ x }}]{% endmacro %}{% if ext is defined %}{{ ext(1) }}{% else %}-{% endif %}", export: "m", use_expr: "ext(1)" },
+    Exporter { src: "{% set y = 'Y' %}{% macro m(x) %}[{{ x }}{{ y }}]{% endmacro %}{% if ext is defined %}{{ ext(1) }}{% else %}-{% endif %}", export: "m", use_expr: "ext(1)" },
+    Exporter { src: "{% macro m(x) %}<{{ x }}>{% endmacro %}{% set ns = namespace() %}{% set ns.f = m %}{% if ext is defined %}{{ ext.f(2) }}{% else %}-{% endif %}", export: "ns", use_expr: "ext.f(2)" },
+    Exporter { src: "{% macro m(x) %}({{ x }}){% endmacro %}{% set exported = m %}{% if ext is defined %}{{ ext(3) }}{% else %}-{% endif %}", export: "exported", use_expr: "ext(3)" },
+    Exporter { src: "{% import 'lib' as lib %}{% if ext is defined %}{{ ext.m(4) }}{% else %}-{% endif %}", export: "lib", use_expr: "ext.m(4)" },
+    Exporter { src: "{% set ns = namespace() %}{% macro wrap() %}{% set ns.c = caller %}w{{ caller() }}{% endmacro %}{% call wrap() %}inner{% endcall %}{% if ext is defined %}{{ ext.c() }}{% else %}-{% endif %}", export: "ns", use_expr: "ext.c()" },
+    Exporter { src: "{% set ns = namespace() %}{% for i in [7, 8] %}{% set ns.l = loop %}{% endfor %}{% if ext is defined %}{{ ext.l.index }}/{{ ext.l.length }}/{{ ext.l.cycle('p', 'q') }}{% else %}-{% endif %}", export: "ns", use_expr: "ext.l.index ~ '/' ~ ext.l.length" },
+    Exporter { src: "{% from 'lib' import m %}{% if ext is defined %}{{ ext(5) }}{% else %}-{% endif %}", export: "m", use_expr: "ext(5)" },
+    Exporter { src: "{% macro a(x) %}a{{ x }}{% endmacro %}{% macro m(x) %}{{ a(x) }}!{% endmacro %}{% if ext is defined %}{{ ext.name }}|{{ ext }}|{{ ext(1) }}{% else %}-{% endif %}", export: "m", use_expr: "ext.name ~ ext(1)" },
+];
+
+const FX_NAMES: [&str; 9] = ["x0", "x1", "x2", "x3", "x4", "x5", "x6", "x7", "x8"];
+const FO_NAMES: [&str; 9] = ["o0", "o1", "o2", "o3", "o4", "o5", "o6", "o7", "o8"];
+const INFO_SRC: &str = "{{ ext is defined }}/{{ ext is mapping }}/{{ ext is none }}/{{ ext.name is defined }}";
+
+fn foreign_env() -> Environment<'static> {
+    let mut env = new_env();
+    env.add_template("lib", LIB_SRC).unwrap();
+    env.add_template("info", INFO_SRC).unwrap();
+    for (i, x) in EXPORTERS.iter().enumerate() {
+        env.add_template(FX_NAMES[i], x.src).unwrap();
+        env.add_template_owned(
+            FO_NAMES[i].to_string(),
+            format!("{{% macro m(x) %}}other{{{{ x }}}}{{% endmacro %}}{{{{ m(0) }}}}[{{{{ {} }}}}]", x.use_expr),
+        )
+        .unwrap();
+    }
+    env
+}
+
+fn fx_outcome(r: Result<String, Error>) -> String {
+    match r {
+        Ok(s) => format!("ok:{}", s),
+        Result::Err(e) => format!("err:{:?}:{}", e.kind(), e.detail().unwrap_or("-")),
+    }
+}
+
+/// the other renders a thread does before the interesting one: succeeding and failing ones
+fn pre_renders(env: &Environment<'static>, k: usize) {
+    for i in 0..k {
+        match i % 3 {
+            0 => {
+                let _ = env.get_template("x0").and_then(|t| t.render(context! {}));
+            }
+            1 => {
+                let _ = env.render_str("{% macro z() %}{% endmacro %}{{ 1 // 0 }}", context! {});
+            }
+            _ => {
+                let _ = env.get_template("info").and_then(|t| t.render(context! { ext => 1 }));
+            }
+        }
+    }
+}
+
+fn fx_export(env: &Environment<'static>, x: usize) -> Result<Value, String> {
+    let t = env.get_template(FX_NAMES[x]).map_err(|e| fx_outcome(Result::Err(e)))?;
+    let cap = t.render_captured(context! {}).map_err(|e| fx_outcome(Result::Err(e)))?;
+    cap.state().lookup(EXPORTERS[x].export).ok_or_else(|| "no-export".to_string())
+}
+
+fn fx_consume(env: &Environment<'static>, x: usize, consumer: &str, via: &str, v: &Value) -> String {
+    let r = guarded(|| {
+        let globbed;
+        let (env, ctx): (&Environment<'static>, Value) = if via == "glob" {
+            let mut e2 = env.clone();
+            e2.add_global("ext", v.clone());
+            globbed = e2;
+            (&globbed, context! {})
+        } else {
+            (env, context! { ext => v.clone() })
+        };
+        match consumer {
+            "same" => env.get_template(FX_NAMES[x]).and_then(|t| t.render(ctx)),
+            "other" => env.get_template(FO_NAMES[x]).and_then(|t| t.render(ctx)),
+            "str" => env.render_str(EXPORTERS[x].src, ctx),
+            _ => env.get_template("info").and_then(|t| t.render(ctx)),
+        }
+    });
+    match r {
+        Ok(r) => fx_outcome(r),
+        Result::Err(m) => format!("panic:{}", m),
+    }
+}
+
+fn spawn_join<T: Send>(f: impl FnOnce() -> T + Send) -> T {
+    std::thread::scope(|sc| {
+        std::thread::Builder::new().stack_size(8 << 20).spawn_scoped(sc, f).unwrap().join().unwrap()
+    })
+}
+
+/// returns (variant results, oracle verdict)
+fn run_foreign(env: &Environment<'static>, x: usize, site: &str, consumer: &str, via: &str) -> (Vec<String>, String) {
+    let was = LOGGING.swap(false, Ordering::Relaxed);
+    let mut variants: Vec<String> = Vec::new();
+    // ---- export
+    let (exported, same_thread) = if site == "M" {
+        (fx_export(env, x), "-".to_string())
+    } else {
+        let j: usize = site.parse().unwrap_or(0);
+        spawn_join(|| {
+            pre_renders(env, j);
+            let v = fx_export(env, x);
+            let again = match &v {
+                Ok(v) => fx_consume(env, x, consumer, via, v),
+                Result::Err(_) => "-".to_string(),
+            };
+            (v, again)
+        })
+    };
+    let v = match exported {
+        Ok(v) => v,
+        Result::Err(e) => {
+            LOGGING.store(was, Ordering::Relaxed);
+            return (vec![format!("export-failed:{}", e)], format!("FAILforeign{{export failed: {}}}", e));
+        }
+    };
+    // ---- (a) main thread
+    variants.push(fx_consume(env, x, consumer, via, &v));
+    // ---- (b), (c) new threads after k other renders
+    for k in 0..4usize {
+        let v = &v;
+        variants.push(spawn_join(move || {
+            pre_renders(env, k);
+            fx_consume(env, x, consumer, via, v)
+        }));
+    }
+    // ---- the exporting thread itself, one render later
+    variants.push(same_thread);
+    // ---- (d) concurrently
+    let kk: usize = site.parse().unwrap_or(0);
+    for pre in [0usize, kk] {
+        let v = &v;
+        let rs: Vec<String> = std::thread::scope(|sc| {
+            let hs: Vec<_> = (0..4)
+                .map(|_| {
+                    std::thread::Builder::new()
+                        .stack_size(8 << 20)
+                        .spawn_scoped(sc, move || {
+                            pre_renders(env, pre);
+                            fx_consume(env, x, consumer, via, v)
+                        })
+                        .unwrap()
+                })
+                .collect();
+            hs.into_iter().map(|h| h.join().unwrap_or_else(|_| "thread-panicked".into())).collect()
+        });
+        variants.extend(rs);
+    }
+    LOGGING.store(was, Ordering::Relaxed);
+    let reference = variants[0].clone();
+    let labels = ["main", "new+0", "new+1", "new+2", "new+3", "exporter+1", "conc0.0", "conc0.1", "conc0.2", "conc0.3", "concK.0", "concK.1", "concK.2", "concK.3"];
+    let mut verdict = "=".to_string();
+    for (i, r) in variants.iter().enumerate() {
+        if r != "-" && *r != reference {
+            verdict = format!("FAILforeign{{variant {} gave {} but main thread gave {}}}", labels[i], r, reference);
+            break;
+        }
+    }
+    (variants, verdict)
+}
+
+fn foreign_cases() -> Vec<(usize, &'static str, &'static str, &'static str)> {
+    let mut v = Vec::new();
+    for x in 0..EXPORTERS.len() {
+        for site in ["M", "0", "1", "2", "3"] {
+            for consumer in ["same", "other", "str", "info"] {
+                for via in ["ctx", "glob"] {
+                    v.push((x, site, consumer, via));
+                }
+            }
+        }
+    }
+    v
+}
+
+fn foreign_line(env: &Environment<'static>, x: usize, site: &str, consumer: &str, via: &str) -> String {
+    let (variants, verdict) = run_foreign(env, x, site, consumer, via);
+    format!("fx:{}:{}:{}:{}\t{}\t{}", x, site, consumer, via, variants.join(" / "), verdict)
+}
+
 fn main() {
     quiet_panics();
     let args: Vec<String> = std::env::args().collect();
@@ -867,6 +1078,22 @@ fn main() {
                     break;
                 }
             }
+        }
+        Some("foreign") => {
+            // the whole (small) case space, `rounds` times (thread schedules differ between rounds)
+            let rounds: usize = args.get(2).and_then(|s| s.parse().ok()).unwrap_or(1);
+            let env = foreign_env();
+            for _ in 0..rounds {
+                for (x, site, consumer, via) in foreign_cases() {
+                    writeln!(out, "{}", foreign_line(&env, x, site, consumer, via)).unwrap();
+                }
+            }
+        }
+        Some("fone") => {
+            let f: Vec<&str> = args[2].split(':').collect();
+            let env = foreign_env();
+            let x: usize = f.get(1).and_then(|s| s.parse().ok()).unwrap_or(0).min(EXPORTERS.len() - 1);
+            writeln!(out, "{}", foreign_line(&env, x, f.get(2).copied().unwrap_or("0"), f.get(3).copied().unwrap_or("same"), f.get(4).copied().unwrap_or("ctx"))).unwrap();
         }
         Some("file") => {
             // one history per line (corpus of minimised past failures)
